@@ -2,6 +2,7 @@ import BU.Py
 import BU.Spec.Sighash
 import BU.Model.Digest
 import BU.Properties.C01
+import BU.Proofs.Digest03
 /-!
 # C03 — the legacy signature hash equals the original Bitcoin `SignatureHash`
 
@@ -24,7 +25,49 @@ theorem legacy_eq (sha256 : Bytes → Bytes) (T : Tables) (hT : C02.TablesOK T =
     (hs : ht &&& 0x1f = 3 → i < t.outputs.length) :
     ∃ r c, C01.assembleTx t = some r ∧ encToks code = some c ∧
       legacyDigest sha256 T t i code ht = .ok (sha256 (sha256 (legacyPreimage r i c ht))) := by
-  sorry
+  obtain ⟨hv, hl, hn1, hnl, hml, hins, houts, _⟩ := C01.wfTx_elim T t h
+  obtain ⟨c, hcb, hce, hcl, _⟩ := C01.wfScript_elim T hT code hc
+  refine ⟨C01.rawTx T t, c, (C01.tx_spec T hT t h).1, hce, ?_⟩
+  have hin : ∀ x ∈ t.inputs, x.txid ≠ zero32 ∧ 0 ≤ x.index ∧ x.index < 2 ^ 32 := by
+    intro x hx
+    obtain ⟨_, _, h0, h1, _⟩ := C01.wfIn_elim T x (hins x hx)
+    have := List.all_eq_true.mp hn x hx
+    exact ⟨by simpa using this, h0, h1⟩
+  have hout : ∀ o ∈ t.outputs, TxOut.toBytes T o = .ok (encOut (C01.rawOut T o)) :=
+    fun o ho => (C01.out_spec T hT o (houts o ho)).2.1
+  unfold legacyDigest
+  have hx : (t.inputs.map fun x => { x with scriptSig := [] })[i]? =
+      some { t.inputs[i] with scriptSig := [] } := by
+    simp [List.getElem?_eq_getElem hi]
+  simp only [hx]
+  have e1 := Digest03.ins1_eq t.inputs i code _ hx
+  simp only [] at e1
+  rw [e1, Digest03.ins2_eq]
+  by_cases hb2 : ht &&& 0x1f = 2
+  · -- SIGHASH_NONE
+    rw [if_pos hb2]
+    simp only [pure_bind]
+    refine (Digest03.finish2 sha256 T t code c hcb hin i hi ht hht true (by simp [hb2]) [] [] rfl).trans ?_
+    unfold legacyPreimage
+    simp [hb2, C01.rawTx]
+  · rw [if_neg hb2]
+    by_cases hb3 : ht &&& 0x1f = 3
+    · -- SIGHASH_SINGLE
+      rw [if_pos hb3]
+      have hio := hs hb3
+      rw [List.getElem?_eq_getElem hio]
+      simp only [pure_bind]
+      refine (Digest03.finish2 sha256 T t code c hcb hin i hi ht hht true (by simp [hb3]) _ _
+        (Digest03.outs_single T t.outputs i ht hb3 _ (List.getElem?_eq_getElem hio) (hout _ (by simp)))).trans ?_
+      unfold legacyPreimage
+      simp [hb3, C01.rawTx]
+    · -- SIGHASH_ALL and undefined base types
+      rw [if_neg hb3]
+      simp only [pure_bind]
+      refine (Digest03.finish2 sha256 T t code c hcb hin i hi ht hht false (by simp [hb2, hb3]) _ _
+        (Digest03.outs_all T t.outputs hout i ht hb3)).trans ?_
+      unfold legacyPreimage
+      simp [hb2, hb3, C01.rawTx]
 
 /-- SINGLE without a matching output: the library refuses instead of returning some other digest -/
 theorem single_refuses (sha256 : Bytes → Bytes) (T : Tables) (t : Tx) (i : Nat) (code : List Tok) (ht : Nat)
